@@ -60,7 +60,10 @@ Override(tloc, rloc) ==
              v == IF S = {} THEN Head(tloc)[2] ELSE rloc[CHOOSE i \in S : \A j \in S : j <= i][2]
          IN <<<<x, v>>>> \o Override(Tail(tloc), rloc)
 
-Instance(tgt, reuse) == [tgt EXCEPT !.loc = Override(tgt.loc, reuse.loc)]
+\* a reuse element positioned against another element (ref > 0) places its
+\* instance there: the instance is the target positioned by the reuse element
+Instance(tgt, reuse) == [tgt EXCEPT !.loc = Override(tgt.loc, reuse.loc),
+                                    !.ref = IF reuse.ref > 0 THEN reuse.ref ELSE @]
 
 \* ids that are certainly registered at some point: leaf / g nodes not below
 \* a conditional or a loop (the generators keep reference targets there)
